@@ -1,5 +1,104 @@
-(* Wire entry points of the C13 model (stub until the model is built). *)
-From Coq Require Import ZArith List.
-From SG Require Import Base.Sx.
+(* Wire entry points of the C13 model (adaptive driver, error estimate, point counting). *)
+From Coq Require Import ZArith List Bool QArith Qcanon.
+From SG Require Import Base.Sx Base.QcUtil Model.Driver.
+Import ListNotations.
 Open Scope Z_scope.
-Definition entry_C13 (sub : Z) (a : sx) : sx := sx_err 0.
+
+Definition get_limits (tol mn mx : sx) : option limits :=
+  match get_Qc tol, mn, mx with
+  | Some t, Zv m, Lv [] => Some (mkLimits t m None)
+  | Some t, Zv m, Lv [Zv x] => Some (mkLimits t m (Some x))
+  | _, _, _ => None
+  end.
+
+Definition get_obs (s : sx) : option obs :=
+  match s with
+  | Lv [e; u; Zv p] => match get_Qc e, get_Qc u with Some e', Some u' => Some (mkObs e' u' p) | _, _ => None end
+  | _ => None
+  end.
+Definition get_obs_list (s : sx) : option (list obs) :=
+  match s with Lv l => opt_all (map get_obs l) | _ => None end.
+
+Definition get_call (s : sx) : option (limits * list obs) :=
+  match s with
+  | Lv [tol; mn; mx; os] =>
+      match get_limits tol mn mx, get_obs_list os with Some l, Some o => Some (l, o) | _, _ => None end
+  | _ => None
+  end.
+
+Definition of_event (e : event) : sx := match e with EvEval => Zv 0 | EvRefine => Zv 1 end.
+Definition of_dstate (s : dstate) (stopped : bool) : sx :=
+  Lv [of_LQc (d_errs s); of_LQc (d_surs s); of_LZ (d_pts s); Lv (map of_event (d_trace s)); Zv (d_refines s); sx_bool stopped].
+
+(* perform, then any number of continue_adaptive_refinement calls; the state after each call *)
+Fixpoint run_calls (calls : list (limits * list obs)) (s : dstate) : list sx :=
+  match calls with
+  | [] => []
+  | (lim, os) :: r => let '(s', b) := drive lim os s in of_dstate s' b :: run_calls r s'
+  end.
+
+Definition get_norm (z : Z) : option normkind :=
+  match z with 0 => Some NormInf | 1 => Some Norm1 | 2 => Some Norm2sq | _ => None end.
+
+Definition of_gerr (g : gerr) : sx :=
+  match g with GNone => Lv [Zv 0] | GUndefined => Lv [Zv 1] | GVal e => Lv [Zv 2; of_Qc e] end.
+
+Fixpoint get_points (l : list sx) : option (list (list (list Z))) :=
+  match l with
+  | [] => Some []
+  | b :: r => match get_LLZ b, get_points r with Some b', Some r' => Some (b' :: r') | _, _ => None end
+  end.
+
+Fixpoint benefits (l : list sx) : option (list Qc) :=
+  match l with
+  | [] => Some []
+  | Lv [e; Zv n] :: r =>
+      match get_Qc e, benefits r with Some e', Some r' => Some (benefit e' n :: r') | _, _ => None end
+  | _ => None
+  end.
+
+(* sub 0: ((tol min max obs) ...)            -> state after every call
+   sub 1: (tol min max obs)                  -> DimAdaptiveCombi loop
+   sub 2: (norm ref|() integral)             -> global error estimate     (ref = (r1 r2 ...) wrapped: ((r..)) or ())
+   sub 3: (norm ref integral)                -> StandardCombi difference
+   sub 4: ((err evaluations) ...) (errs)     -> (benefits max_benefit total_error)
+   sub 5: (batch ...) batch = (point ...)    -> distinct point counts *)
+Definition entry_C13 (sub : Z) (a : sx) : sx :=
+  match sub, a with
+  | 0, Lv calls =>
+      match opt_all (map get_call calls) with
+      | Some cs => Lv (run_calls cs d_init)
+      | None => sx_err 1
+      end
+  | 1, c =>
+      match get_call c with
+      | Some (lim, os) => let '(s', b) := dim_drive lim os d_init in of_dstate s' b
+      | None => sx_err 1
+      end
+  | 2, Lv [Zv nm; ref; integral] =>
+      match get_norm nm, get_LQc integral with
+      | Some n, Some i =>
+          match ref with
+          | Lv [] => of_gerr (global_error n None i)
+          | Lv [r] => match get_LQc r with Some r' => of_gerr (global_error n (Some r') i) | None => sx_err 3 end
+          | _ => sx_err 3
+          end
+      | _, _ => sx_err 2
+      end
+  | 3, Lv [Zv nm; ref; integral] =>
+      match get_norm nm, get_LQc ref, get_LQc integral with
+      | Some n, Some r, Some i => of_Qc (std_difference n r i)
+      | _, _, _ => sx_err 2
+      end
+  | 4, Lv [Lv objs] =>
+      match benefits objs, opt_all (map (fun o => match o with Lv [e; _] => get_Qc e | _ => None end) objs) with
+      | Some bs, Some es => Lv [of_LQc bs; of_Qc (max_benefit bs); of_Qc (total_error es)]
+      | _, _ => sx_err 4
+      end
+  | 5, Lv batches =>
+      match get_points batches with
+      | Some bs => of_LZ (point_counts [] bs)
+      | None => sx_err 5
+      end
+  | _, _ => sx_err 0
+  end.
